@@ -156,7 +156,8 @@ func realQueues(f *opfix.Fixture) map[string][]specTask {
 
 // classify a queue mismatch by property
 // actq is the queue whose worker made the step (Pick, Finish); "" for environment steps.
-func classifyAll(op, actq string, want, got map[string][]specTask) []SigDet {
+// finType: type of the task whose run ended (Finish steps), "" otherwise.
+func classifyAll(op, actq, finType string, want, got map[string][]specTask) []SigDet {
 	var out []SigDet
 	add := func(sig, d string) { out = append(out, SigDet{sig, d}) }
 	qs := []string{}
@@ -196,6 +197,17 @@ func classifyAll(op, actq string, want, got map[string][]specTask) []SigDet {
 				continue
 			}
 		}
+		if op == "Finish" && (finType == "EnableKube" || finType == "EnableSched") {
+			// what enabling the bindings of a hook leaves in main (its Synchronization tasks at the head, then the rest)
+			add("C06/startup-sequence", d+fmt.Sprintf("; the step was the end of %s", finType))
+			continue
+		}
+		if op == "Pick" && len(w) == len(g) && len(w) > 0 && len(g[0].Ctxs) < len(w[0].Ctxs) && reflect.DeepEqual(g[0].Ctxs, w[0].Ctxs[:len(g[0].Ctxs)]) && reflect.DeepEqual(g[1:], w[1:]) {
+			// the merged tasks left the queue but the head does not carry their contexts: a failed run would lose them
+			add("C04/merged-contexts-not-kept-for-retry", d)
+			add("C07/combine", d)
+			continue
+		}
 		switch op {
 		case "Pick":
 			add("C07/combine", d) // combining changed the queue differently
@@ -225,7 +237,7 @@ func classifyAll(op, actq string, want, got map[string][]specTask) []SigDet {
 }
 
 func classify(op, actq string, want, got map[string][]specTask) (string, string) {
-	if all := classifyAll(op, actq, want, got); len(all) > 0 {
+	if all := classifyAll(op, actq, "", want, got); len(all) > 0 {
 		return all[0].Sig, all[0].Detail
 	}
 	return "", ""
@@ -397,6 +409,7 @@ func replayCase(n int, c Case, hookbin string) Result {
 		a := st["act"].([]interface{})
 		op := fmt.Sprint(a[0])
 		res.Steps = i
+		finType := ""
 		switch op {
 		case "Pick":
 			q := fmt.Sprint(a[1])
@@ -456,7 +469,7 @@ func replayCase(n int, c Case, hookbin string) Result {
 					}
 					// the same pick may also have changed queues differently (e.g. taken tasks of another queue)
 					settle(f, c, st, 500*time.Millisecond)
-					res.Also = classifyAll(op, q, specQueues(st), realQueues(f))
+					res.Also = classifyAll(op, q, "", specQueues(st), realQueues(f))
 					return bad(i, sig, fmt.Sprintf("hook %s received contexts %v, specification %v", e.Hook, got, want))
 				}
 			} else {
@@ -481,6 +494,7 @@ func replayCase(n int, c Case, hookbin string) Result {
 			ok, _ := a[2].(bool)
 			prev := c.Steps[i-1]["run"].(map[string]interface{})[q].(map[string]interface{})
 			t := toTask(prev["task"])
+			finType = t.Type
 			wantStatus := "Success"
 			if id := execID[q]; id != "" {
 				outcome := map[string]interface{}{"exit": 0}
@@ -539,6 +553,13 @@ func replayCase(n int, c Case, hookbin string) Result {
 			}
 			if status == "Fail" {
 				lastFail[q] = time.Now()
+				// a free-running worker spends the back-off inside waitForTask's wait loop: put it there, so that what
+				// happens during the back-off (tasks appended to the queue) meets a wait in progress
+				if !shut {
+					if err := f.WalkIntoWait(q); err != nil {
+						return bad(i, "DIV/steer/Finish", err.Error())
+					}
+				}
 			}
 			delete(running, q)
 		case "BackoffElapsed":
@@ -595,7 +616,7 @@ func replayCase(n int, c Case, hookbin string) Result {
 		if (op == "Pick" || op == "Finish") && len(a) > 1 {
 			actq = fmt.Sprint(a[1])
 		}
-		if all := classifyAll(op, actq, specQueues(st), realQueues(f)); len(all) > 0 {
+		if all := classifyAll(op, actq, finType, specQueues(st), realQueues(f)); len(all) > 0 {
 			// an Event task of a binding whose Synchronization has not completed yet is a statement of its own
 			if early := earlyEvents(st, realQueues(f)); early != "" {
 				all = append([]SigDet{{"C06/event-before-synchronization", early}, {"C01/event-before-synchronization", early}}, all...)
